@@ -325,7 +325,7 @@ Proof. vm_compute. reflexivity. Qed.
 Lemma class_dt : forall lex dt lang,
   match lit_class lex dt lang with
   | CStr => dt = None \/ dt = Some xsd_string
-  | CInt _ => dt = Some xsd_integer
+  | CNum _ _ => dt = Some xsd_integer \/ dt = Some xsd_decimal
   | CBool _ => dt = Some xsd_boolean
   | COther => True
   end.
@@ -334,14 +334,16 @@ Proof.
   destruct lang as [[|x l]|]; auto; destruct dt as [d|]; auto;
     (destruct (str_eqb d xsd_string) eqn:E1; [apply str_eqb_eq in E1; subst; auto|]);
     (destruct (str_eqb d xsd_integer) eqn:E2; [apply str_eqb_eq in E2; subst; destruct (parse_int lex); auto|]);
+    (destruct (str_eqb d xsd_decimal) eqn:E4; [apply str_eqb_eq in E4; subst; destruct (parse_dec lex) as [[? ?]|]; auto|]);
     (destruct (str_eqb d xsd_boolean) eqn:E3; [apply str_eqb_eq in E3; subst; destruct (parse_bool lex); auto|]); auto.
 Qed.
 
 Lemma class_str_dt : forall lex dt lang, lit_class lex dt lang = CStr -> dt = None \/ dt = Some xsd_string.
 Proof. intros lex dt lang H. pose proof (class_dt lex dt lang) as X. rewrite H in X. exact X. Qed.
 
-Lemma class_int_dt : forall lex dt lang z, lit_class lex dt lang = CInt z -> dt = Some xsd_integer.
-Proof. intros lex dt lang z H. pose proof (class_dt lex dt lang) as X. rewrite H in X. exact X. Qed.
+Lemma class_num_dt : forall lex dt lang m e, lit_class lex dt lang = CNum m e ->
+  dt = Some xsd_integer \/ dt = Some xsd_decimal.
+Proof. intros lex dt lang m e H. pose proof (class_dt lex dt lang) as X. rewrite H in X. exact X. Qed.
 
 Lemma class_bool_dt : forall lex dt lang b, lit_class lex dt lang = CBool b -> dt = Some xsd_boolean.
 Proof. intros lex dt lang b H. pose proof (class_dt lex dt lang) as X. rewrite H in X. exact X. Qed.
